@@ -228,12 +228,14 @@ func (self *Interpreter) infixHelper(lhs ast.AnalyzedExpression, rhs ast.Analyze
 		if i != nil {
 			return nil, nil, i
 		}
+		// The left operand is read before the right one is evaluated (which may assign to the same variable).
+		lhsValue := *lhs
 		rhs, i := self.expression(rhs)
 		if i != nil {
 			return nil, nil, i
 		}
 
-		res, i := (*lhs).IsEqual(*rhs)
+		res, i := lhsValue.IsEqual(*rhs)
 		if i != nil {
 			return nil, nil, i
 		}
@@ -243,12 +245,14 @@ func (self *Interpreter) infixHelper(lhs ast.AnalyzedExpression, rhs ast.Analyze
 		if i != nil {
 			return nil, nil, i
 		}
+		// The left operand is read before the right one is evaluated (which may assign to the same variable).
+		lhsValue := *lhs
 		rhs, i := self.expression(rhs)
 		if i != nil {
 			return nil, nil, i
 		}
 
-		res, i := (*lhs).IsEqual(*rhs)
+		res, i := lhsValue.IsEqual(*rhs)
 		if i != nil {
 			return nil, nil, i
 		}
@@ -263,12 +267,13 @@ func (self *Interpreter) infixHelper(lhs ast.AnalyzedExpression, rhs ast.Analyze
 		if i != nil {
 			return nil, nil, i
 		}
+		// The left operand is read before the right one is evaluated (which may assign to the same variable).
+		lhsInt := (*lhsVal).(value.ValueInt)
 		rhsVal, i := self.expression(rhs)
 		if i != nil {
 			return nil, nil, i
 		}
 
-		lhsInt := (*lhsVal).(value.ValueInt)
 		rhsInt := (*rhsVal).(value.ValueInt)
 
 		// TODO: add checked operations + runtime crashes
@@ -327,12 +332,13 @@ func (self *Interpreter) infixHelper(lhs ast.AnalyzedExpression, rhs ast.Analyze
 		if i != nil {
 			return nil, nil, i
 		}
+		// The left operand is read before the right one is evaluated (which may assign to the same variable).
+		lhsFloat := (*lhsVal).(value.ValueFloat)
 		rhsVal, i := self.expression(rhs)
 		if i != nil {
 			return nil, nil, i
 		}
 
-		lhsFloat := (*lhsVal).(value.ValueFloat)
 		rhsFloat := (*rhsVal).(value.ValueFloat)
 
 		// TODO: add checked operations + runtime crashes
@@ -372,14 +378,15 @@ func (self *Interpreter) infixHelper(lhs ast.AnalyzedExpression, rhs ast.Analyze
 			if i != nil {
 				return nil, nil, i
 			}
+			// The left operand is read before the right one is evaluated (which may assign to the same variable).
+			lhsVal = lhsTemp
+			lhsBool = (*lhsVal).(value.ValueBool).Inner
 			rhsTemp, i := self.expression(rhs)
 			if i != nil {
 				return nil, nil, i
 			}
-			lhsVal = lhsTemp
 			rhsVal = rhsTemp
 
-			lhsBool = (*lhsVal).(value.ValueBool).Inner
 			rhsBool = (*rhsVal).(value.ValueBool).Inner
 		}
 
@@ -429,6 +436,8 @@ func (self *Interpreter) infixHelper(lhs ast.AnalyzedExpression, rhs ast.Analyze
 		if i != nil {
 			return nil, nil, i
 		}
+		// The left operand is read before the right one is evaluated (which may assign to the same variable).
+		lhsStr := (*lhsTemp).(value.ValueString).Inner
 		rhsTemp, i := self.expression(rhs)
 		if i != nil {
 			return nil, nil, i
@@ -436,7 +445,7 @@ func (self *Interpreter) infixHelper(lhs ast.AnalyzedExpression, rhs ast.Analyze
 
 		switch operator {
 		case pAst.PlusInfixOperator:
-			strRes := (*lhsTemp).(value.ValueString).Inner + (*rhsTemp).(value.ValueString).Inner
+			strRes := lhsStr + (*rhsTemp).(value.ValueString).Inner
 			return value.NewValueString(strRes), lhsTemp, nil
 		default:
 			panic("A new operator kind was introduced without updating this code")
